@@ -31,7 +31,7 @@ ASSUMPTIONS = [
 ]
 BUDGET = {"quick": 70, "thorough": 700}
 FLOORS = {"crash_points": {"quick": 3000, "thorough": 100000}, "directory_states_checked": {"quick": 3000, "thorough": 100000},
-          "depth2_states": {"quick": 1500, "thorough": 50000}, "real_kills": {"quick": 20, "thorough": 150}, "driver_saves": 6, "interrupt_points": 100}
+          "depth2_states": {"quick": 1500, "thorough": 50000}, "real_kills": {"quick": 20, "thorough": 150}, "driver_saves": 8, "interrupt_points": 100}
 
 NAME = "/ckpt/checkpoint.json"
 
@@ -70,7 +70,7 @@ def cases(tier, seed):
     for start in ("clean", "between-renames"):
         for bufsize in (1, 64):
             out.append({"engine": "interrupt", "start": start, "bufsize": bufsize, "npar": 2})
-    for alg in ("mcmc", "optimizer", "optimizer-lbfgs"):  # the two code paths of Optimizer: _run (first-order) and _run_closure (LBFGS)
+    for alg in ("mcmc", "optimizer", "optimizer-lbfgs", "hmc-class"):  # Optimizer has two code paths (_run, _run_closure for LBFGS); HMC is the standalone sampler class
         out.append({"engine": "driver", "algorithm": alg, "bufsize": 64})
     return out
 
@@ -341,7 +341,10 @@ def run_driver(case, V, C, seen):
     joint = {"id": "joint", "type": "JointDistributionModel", "distributions": [
         {"id": "prior", "type": "Distribution", "distribution": "torch.distributions.Normal",
          "x": {"id": "x", "type": "Parameter", "tensor": [0.3, -0.2], "dtype": "torch.float64"}, "parameters": {"loc": 0.0, "scale": 1.0}}]}
-    if alg == "mcmc":
+    if alg == "hmc-class":
+        spec = [joint, {"id": "mcmc", "type": "HMC", "joint": "joint", "parameters": ["x"], "iterations": 4, "checkpoint": NAME, "checkpoint_frequency": 1, "every": 1,
+                        "integrator": {"id": "integrator", "type": "LeapfrogIntegrator", "steps": 2, "step_size": 0.1}}]
+    elif alg == "mcmc":
         spec = [joint, {"id": "mcmc", "type": "MCMC", "joint": "joint", "iterations": 4, "checkpoint": NAME, "checkpoint_frequency": 1,
                         "operators": [{"id": "op", "type": "SlidingWindowOperator", "parameters": "x", "weight": 1.0, "width": 0.5}], "loggers": []}]
     else:
@@ -354,7 +357,7 @@ def run_driver(case, V, C, seen):
     vfs = fsshim.VFS({}, case["bufsize"])
     with fsshim.installed(vfs):
         objs, dic = tt.load(spec)
-        dic["x"].requires_grad = alg != "mcmc"
+        dic["x"].requires_grad = alg not in ("mcmc", "hmc-class")
         dic["mcmc"].run()
     total = len(vfs.ops)
     creates = [i for i, o in enumerate(vfs.ops) if o[0] == "create"]
@@ -363,15 +366,18 @@ def run_driver(case, V, C, seen):
     modes = {o[1].replace(NAME, "name") for o in vfs.ops if o[0] == "create"}
     if len(creates) < 2:
         return
-    # pass 2: kill the run before every operation after the first complete save; judge the directory
-    first_done = creates[1]
-    for k in range(first_done, total + 1):
-        vfs2 = fsshim.VFS({}, case["bufsize"], crash_at=k)
+    # pass 2: kill the run before every operation after the first complete save; judge the directory.  Second variant: the directory
+    # already holds the checkpoint of an earlier run (a resumed or repeated run): then the very first write is an overwrite too
+    earlier = {NAME: json.dumps([{"id": "x", "type": "Parameter", "tensor": [9.0, 9.0]}]).encode()}
+    for k, start in [(k, {}) for k in range(creates[1], total + 1)] + [(k, earlier) for k in range(0, total + 1)]:
+        if start:
+            C["driver_kills_over_an_earlier_checkpoint"] = C.get("driver_kills_over_an_earlier_checkpoint", 0) + 1
+        vfs2 = fsshim.VFS(dict(start), case["bufsize"], crash_at=k)
         torch.manual_seed(0)
         with fsshim.installed(vfs2):
             try:
                 objs, dic = tt.load(spec)
-                dic["x"].requires_grad = alg != "mcmc"
+                dic["x"].requires_grad = alg not in ("mcmc", "hmc-class")
                 dic["mcmc"].run()
             except fsshim.Crash:
                 pass
